@@ -349,7 +349,7 @@ func (cc *chainCtx) judgeBlockchainInfo(res *ctypes.ResultBlockchainInfo) judgem
 
 // judgeQuery: the (key, value, height) triple must be true of the application
 // state that header height+1 commits to.
-func (cc *chainCtx) judgeQuery(res *ctypes.ResultABCIQuery) judgement {
+func (cc *chainCtx) judgeQuery(rq *request, res *ctypes.ResultABCIQuery) judgement {
 	if res == nil {
 		return bad("nil", "nil response relayed")
 	}
@@ -362,6 +362,14 @@ func (cc *chainCtx) judgeQuery(res *ctypes.ResultABCIQuery) judgement {
 		return bad("height", "value claimed for height %d which the chain does not have", q.Height)
 	}
 	v, exists := ht.KV[string(q.Key)]
+	if rq != nil && rq.StoreQuery {
+		// a query into the two-level store: the path names the store, the response the key
+		// (the store's content is fixed from the first height on)
+		v, exists = cc.ms.kv[rq.Store][string(q.Key)]
+		if q.Height < cc.msFrom {
+			exists = false
+		}
+	}
 	if q.Value == nil {
 		if exists {
 			return bad("value-nil", "absence of key %q claimed at height %d where it has a value", q.Key, q.Height)
